@@ -24,6 +24,9 @@ A case (JSON-serialisable):
      [6, n, member, in, out]   the exporting side re-declares / adds a method on its n-th interface OBJECT while it is
                            exported: ifaces[n].addMethod(Method(member, in, out)) (the model is given the declarations
                            in force when the judged calls are made, see model_line)
+     [7, c]                client c LOSES ITS CONNECTION: both ends of its link are told (connectionLost(ConnectionDone)
+                           on the client's protocol and on the bus-side protocol).  Only a client that takes part in
+                           no call in flight and has nothing in transit (a bystander) is ever lost, see ASSUMPTIONS
   exc_home where the classes of the raised exceptions are defined (absent / 0: at the top level of a module, 1: in the
            body of another class, 2: inside a function): __qualname__ 'E' | 'Holder.E' | 'factory.<locals>.E'
   expect   oracle data per call (see spec_expect), absent for cases outside the property's quantifier
@@ -39,8 +42,16 @@ from harness import marshal_common as mc
 
 ASSUMPTIONS = [
     'the clients are attached: authenticated (bypassed as in harness/c13.py, c14.py, c08.py, c09.py: C06 / C07) and '
-    'Hello answered (C09); nobody disconnects (C09) and no timer fires (C08: a timeout may be armed, the clock of '
-    'txdbus.client.reactor is never advanced)',
+    'Hello answered (C09); neither the calling nor the exporting client of a call disconnects (C09: what a call '
+    'completes with when its OWN connection goes is C08) and no timer fires (C08: a timeout may be armed, the clock '
+    'of txdbus.client.reactor is never advanced)',
+    'OTHER clients of the same bus may lose their connection while calls are in flight (schedule action 7; "any '
+    'number of clients": the two clients of the call stay attached, the property excuses nothing because a third one '
+    'leaves).  Model/System.v has no disconnect action; the lost client is always a bystander - it exports nothing, '
+    'owns no well-known name, has no call of its own in flight and nothing in transit on its link, nobody has a '
+    'match rule (no NameOwnerChanged is delivered to anyone) - so its departure is invisible to the others and the '
+    'model is run on the schedule WITHOUT the action.  The oracle for the calls in flight is the property text '
+    'itself (judge): they run the method and complete with what it returned / raised, exactly once',
     'a schedule is an order of MESSAGE completions per link plus a partition of every message into reads (cuts, and '
     'bytes of the following message spilling into the last read); that the framing layer delivers exactly the '
     'messages whatever the partition is C04 (the harness does cut the reads, the model delivers messages)',
@@ -108,6 +119,7 @@ class Exec(object):
         self.behs = {b[0]: b[1] for b in case['behs']}
         self.current = None       # (sender, serial) of the call being dispatched (observed from outside, oracle only)
         self.pending_tags = []
+        self.gone = []            # clients whose connection was lost (action 7)
         for i in range(1, self.k + 1):
             self.spy(self.net.client[i].objHandler)
         # exporting side
@@ -294,6 +306,25 @@ class Exec(object):
             _, n, member, sin, sout = a
             if n < len(self.ifobjs):
                 self.ifobjs[n].addMethod(E['Method'](member, sin, sout))
+        elif kind == 7:
+            c = a[1]
+            if not (1 <= c <= self.k) or c in self.gone or not self.idle(c):
+                return
+            self.gone.append(c)
+            from twisted.python.failure import Failure
+            from twisted.internet.error import ConnectionDone
+            for side, p in (('client', self.net.client[c]), ('bus', self.net.server[c])):
+                try:
+                    p.connectionLost(Failure(ConnectionDone()))
+                except Exception as ex:      # not what is judged here (C09 / C14)
+                    self.net.escaped.append(('lost-' + side, c, type(ex).__name__))
+
+    def idle(self, c):
+        """nothing of client c is in transit and none of its own calls is waiting for an answer (observed from
+        outside: every Deferred it was handed has fired)"""
+        if len(self.net.queue(('u', c))) or len(self.net.queue(('d', c))):
+            return False
+        return sum(1 for d in self.done if d[0] == c) == self.next_id[c]
 
     # -- what a scheduler may do next ---------------------------------------------------------------------------
     def deliverable(self):
@@ -409,7 +440,7 @@ def model_line(case):
     for c, path, ci in case['objects']:
         per.setdefault(c, []).append([path, [ci, nc]])
     objs = [[c, per[c]] for c in sorted(per)]
-    sched = [[0, 1, s(PROPS), [[s(m), s(i), s(o)] for m, i, o in PROPS_DECL], 0]] + [action_sexp(a) for a in case['sched'] if a[0] != 6]
+    sched = [[0, 1, s(PROPS), [[s(m), s(i), s(o)] for m, i, o in PROPS_DECL], 0]] + [action_sexp(a) for a in case['sched'] if a[0] not in (6, 7)]
     return '(11 %d %s %d %d %s %s %s %s %s%s)' % (
         case['k'], common.dump([0] * case['k']), SERIAL0, FUEL,
         common.dump([[c, s(n), f] for c, n, f in case['names']]),
@@ -646,6 +677,8 @@ def evaluate(ctx, cases, res):
         bump('invocations', len(io['invs']))
         bump('completions', len(io['done']))
         bump('kind:%s' % c.get('kind', '?'))
+        for n in c.get('in_flight_at_loss', []):
+            bump('a third client lost its connection: %s' % ('no judged call in flight' if n == 0 else 'with judged call(s) in flight'))
         for d in io['done']:
             bump('completion:%s' % {0: 'value', 1: 'remote-error', 2: 'signature-mismatch', 3: 'failed', 4: 'proxy',
                                     5: 'introspection-failed'}.get(d[2][0], '?'))
@@ -808,6 +841,7 @@ class Scenario(object):
         self.decl_count = 0
         self.proxy_info = {}       # (client, pidx) -> (exporter client, path, [iface names in lookup order])
         self.ifaces0 = None        # what the exporter declares at first, when it re-declares later (action 6)
+        self.drops = []            # bystanders whose connection is lost at a moment the scheduler picks (action 7)
         self.exc_home = rng.choice([0, 0, 1, 2])
         for key, (fid, _) in self.w['fids'].items():
             tin, tout = self.w['sigs'][key]
@@ -882,9 +916,9 @@ class Scenario(object):
         return act, stub
 
 
-def enabled_steps(ex, threads, pos, fires):
+def enabled_steps(ex, threads, pos, fires, drops=()):
     """the steps a scheduler can take now: next application action of a thread (when its proxy exists), a delivery
-    on a link holding a complete message, a Deferred waiting to be fired"""
+    on a link holding a complete message, a Deferred waiting to be fired, a bystander losing its connection"""
     out = []
     for ti, th in enumerate(threads):
         if pos[ti] < len(th):
@@ -897,6 +931,9 @@ def enabled_steps(ex, threads, pos, fires):
     for key, dfr in enumerate(ex.pending):
         if dfr is not None and key in fires:
             out.append(('fire', key))
+    for c in drops:
+        if c not in ex.gone and ex.idle(c):
+            out.append(('drop', c))
     return out
 
 
@@ -952,6 +989,7 @@ def _run_schedule(scn, case, choose, rng, max_steps):
     pos = [0] * len(scn.threads)
     branch = []
     laters = {}
+    in_flight = []
     seen_pending = 0
     for step in range(max_steps):
         while seen_pending < len(ex.pending):
@@ -959,7 +997,7 @@ def _run_schedule(scn, case, choose, rng, max_steps):
             if ei is not None and expect[ei][6][0] == 'deferred':
                 pend_expect[seen_pending] = ei
             seen_pending += 1
-        en = enabled_steps(ex, [[x[0] for x in th] for th in scn.threads], pos, pend_expect)
+        en = enabled_steps(ex, [[x[0] for x in th] for th in scn.threads], pos, pend_expect, scn.drops)
         if not en:
             break
         i = choose(step, en)
@@ -975,6 +1013,13 @@ def _run_schedule(scn, case, choose, rng, max_steps):
             d = arg + [cuts, rng.choice([0, 0, 0, 1, 9, 40])]
             ex.do(d)
             sched.append(d)
+        elif what == 'drop':
+            # how many judged calls are in flight at that moment (distribution fact only)
+            in_flight.append(sum(1 for e in expect if e[1] is not None
+                                 and not any(x[0] == e[0] and x[1] == e[1] for x in ex.done)))
+            a = [7, arg]
+            ex.do(a)
+            sched.append(a)
         else:
             ei = pend_expect[arg]
             tout = expect[ei][6][1]
@@ -984,6 +1029,8 @@ def _run_schedule(scn, case, choose, rng, max_steps):
             ex.do(a)
             sched.append(a)
     case['sched'] = sched
+    if in_flight:
+        case['in_flight_at_loss'] = in_flight
     complete = all(p == len(th) for p, th in zip(pos, scn.threads)) and not ex.deliverable()
     if complete and all(e[6][0] != 'deferred' for e in expect):
         case['expect'] = expect
@@ -1096,6 +1143,32 @@ def scenario_intro_race(rng, k=3):
     intro = scn.intro_proxy(c2)
     p2 = scn.proxy_count[c2] - 1
     scn.threads = [[scn.call(c1, 0)], [(intro[0], None), scn.call(c2, p2)]]
+    return scn
+
+
+def scenario_bystander(rng, ncalls=1, deferred=0, k=3):
+    """a call between two clients while OTHER clients of the bus lose their connection: k - 2 bystanders (they may
+    hold a proxy of their own and have used it - every call of theirs has completed), each lost at a moment the
+    scheduler picks: before the call is issued, while its bytes are on either link, while the method's Deferred is
+    unfired, while the reply travels, afterwards"""
+    scn = Scenario(rng, k, 1, 'bystander-lost-%d%s' % (ncalls, '-deferred' if deferred else ''))
+    ec = scn.exporter()[0]
+    others = [c for c in range(1, k + 1) if c != ec]
+    rng.shuffle(others)
+    c1, idle = others[0], others[1:]
+    if rng.random() < 0.5:
+        scn.prefix += scn.explicit_proxy(c1, wellknown=rng.random() < 0.3)
+    else:
+        scn.prefix += scn.intro_proxy(c1, wellknown=rng.random() < 0.3)
+    force_deferred(scn, deferred)
+    for b in idle:
+        r = rng.random()
+        if r < 0.6:
+            scn.prefix += scn.explicit_proxy(b) if rng.random() < 0.5 else scn.intro_proxy(b)
+            if not deferred and r < 0.35:
+                scn.prefix.append(scn.call(b, 0))        # answered before the schedule proper starts
+    scn.threads = [[scn.call(c1, 0)] for _ in range(ncalls)]
+    scn.drops = list(idle)
     return scn
 
 
@@ -1286,6 +1359,11 @@ def scenario_random(rng):
     for _ in range(ncalls):
         c, p = rng.choice(two)
         scn.threads.append([scn.call(c, p)])
+    # clients that neither export nor call (they may hold proxies): some of them lose their connection on the way
+    busy = set(c for c, _ in two) | set(scn.exporter(ei)[0] for ei in range(nexp))
+    spare = [c for c in range(1, k + 1) if c not in busy]
+    if spare and rng.random() < 0.5:
+        scn.drops = rng.sample(spare, rng.randrange(1, len(spare) + 1))
     return scn
 
 
@@ -1416,6 +1494,19 @@ def gen_cases(ctx, res):
     complete &= exhaust('one caller, a method returning a Deferred', scenario_one_caller(rng, 1, deferred=1), 50)
     exhaust('two callers, both methods return Deferreds (first %d)' % ctx.n(600, 0), scenario_two_callers(rng, deferred=2), ctx.n(600, 1))
     exhaust('introspection racing a call (first %d)' % ctx.n(600, 0), scenario_intro_race(rng), ctx.n(600, 1))
+    for _ in range(ctx.n(3, 10)):
+        complete &= exhaust('one call, a third client loses its connection at every point', scenario_bystander(rng, 1), 60)
+        complete &= exhaust('one call answered by a Deferred, a third client loses its connection at every point',
+                            scenario_bystander(rng, 1, deferred=1), 60)
+    exhaust('two calls in flight, a third client lost (first %d)' % ctx.n(120, 0), scenario_bystander(rng, 2, deferred=rng.choice([0, 1])),
+            ctx.n(120, 1))
+    if not ctx.quick:
+        complete &= exhaust('two calls in flight, a third client lost', scenario_bystander(rng, 2), 3000)
+        complete &= exhaust('two calls answered by Deferreds, a third client lost', scenario_bystander(rng, 2, deferred=1), 6000)
+        exhaust('one call, two other clients lost (4 clients)', scenario_bystander(rng, 1, deferred=1, k=4), 2000)
+    for _ in range(ctx.n(60, 600)):
+        cases.append(random_schedule(scenario_bystander(rng, rng.choice([1, 2, 2, 3]), deferred=rng.choice([0, 0, 1]),
+                                                        k=rng.choice([3, 3, 4])), rng))
     if not ctx.quick:
         complete &= exhaust('two callers, two exporters (4 clients)', scenario_two_exporters(rng), 400)
         complete &= exhaust('two callers, both methods return Deferreds', scenario_two_callers(rng, deferred=2), 3000)
@@ -1447,7 +1538,9 @@ def run(ctx, res):
                 'malformed stream (wrong counts, unknown members, mismatched declarations, unknown destinations, bad '
                 'names, required-interface checks, cache conflicts, unencodable results); exporters that re-declare / '
                 'add methods on an exported interface after it was introspected, then fresh proxies; exception classes '
-                'defined at module level, inside a class, inside a function.  Non-trivial: at least one '
+                'defined at module level, inside a class, inside a function; OTHER clients of the bus (bystanders: '
+                'no call of their own in flight) losing their connection at every point of a call between two clients '
+                'that stay attached (exhaustive for one call, random for 1-3 calls and 3-4 clients).  Non-trivial: at least one '
                 'exported method ran or one Deferred completed')
     cases = gen_cases(ctx, res)
     evaluate(ctx, cases, res)
